@@ -938,7 +938,7 @@ class FnAnalysis:
             if args and args[0][0] == 'ref':
                 st = f.get('self_ty', '')
                 # as_ref on Option is not transparent
-                if 'option::Option' not in st:
+                if not st.lstrip('&').replace('mut ', '').startswith('core::option::Option'):
                     return ('ref', ('view', args[0][1], decl.split('::')[-1]))
         if decl_matches(f, INDEX_DECLS):
             if len(args) == 2 and args[0][0] == 'ref':
